@@ -92,7 +92,20 @@ def load_unit(name):
     return u
 
 
+_EXTRACT_CACHE = {}
+_EXTRACT_LOCK = __import__("threading").Lock()
+
+
 def run_extractor(family, deref_lets=("H_i",)):
+    """One extraction per process and family (units of one check share it); always from the current tree."""
+    key = (family, tuple(deref_lets))
+    with _EXTRACT_LOCK:
+        if key not in _EXTRACT_CACHE:
+            _EXTRACT_CACHE[key] = _run_extractor(family, deref_lets)
+        return _EXTRACT_CACHE[key]
+
+
+def _run_extractor(family, deref_lets=("H_i",)):
     files = BBS_FILES if family == "bbs" else CL_FILES
     feats = ["bbsplus", "bbsplus_blind"] if family == "bbs" else ["cl03"]
     cfg = {
@@ -104,7 +117,7 @@ def run_extractor(family, deref_lets=("H_i",)):
         "tape_fns": TAPE_FNS if family == "bbs" else [],
     }
     os.makedirs(BUILD, exist_ok=True)
-    cfgp = os.path.join(BUILD, f"vx_{family}_{os.getpid()}.json")
+    cfgp = os.path.join(BUILD, f"vx_{family}_{os.getpid()}_{__import__('uuid').uuid4().hex}.json")
     with open(cfgp, "w") as f:
         json.dump(cfg, f)
     if not os.path.exists(VX):
